@@ -552,5 +552,424 @@ theorem relF_handleLogon {P : InMsg → Prop} (s : Sess) (m : InMsg) (hk : kindO
           rw [h3.cfg] at hb hcc
           exact (h3.trans (relF_logonReply _ m _ hflag)).trans (relF_logonFinish _ m (h.onLogon hk ⟨hb, hcc, hne⟩ hcv))
     · rw [he]; exact h1
+
+/-! ### dispatch -/
+
+omit hp in
+theorem kind_of_beq {m : InMsg} {k : String} (h : (kindOf m == k) = true) : kindOf m = k := by simpa using h
+
+theorem hout_inSessionFixMsgIn {P : InMsg → Prop} (s : Sess) (m : InMsg) (h : MsgHyp N S P s.cfg m) (hc : CfgHyp N S s.cfg)
+    (hs : StashOK P s.st) : HOut N S P s (inSessionFixMsgIn s m) := by
+  unfold inSessionFixMsgIn
+  simp only []
+  split
+  · rename_i hk
+    have hl := relF_handleLogon s m (kind_of_beq hk) h hc
+    generalize handleLogon s m = r at hl
+    obtain ⟨s', o⟩ := r
+    cases o with
+    | some e => exact ⟨hl.trans (relF_initiateLogout s'), stashOK_plain _ rfl⟩
+    | none => exact ⟨hl, stashOK_plain _ rfl⟩
+  · split
+    · exact hout_handleLogout s m h hc hs
+    · split
+      · exact hout_handleResendRequest s m h hs
+      · split
+        · exact hout_handleSequenceReset s m h hs
+        · split
+          · exact hout_handleTestRequest s m h hs
+          · have hv := relF_verifySelect s m true true true h
+            generalize verifySelect s m true true true = r at hv
+            obtain ⟨s', o⟩ := r
+            cases o with
+            | some r => exact hout_reject m r h.p hs hv
+            | none => exact ⟨hv.trans (relF_incrTarget s'), stashOK_plain _ rfl⟩
+
+/-- the hypotheses under which every message of the pool may be processed in configuration `cfg` -/
+def PoolHyp (N : Obs → Prop) (S : Store → Store → Prop) (P : InMsg → Prop) (cfg : Cfg) : Prop := ∀ m, P m → MsgHyp N S P cfg m
+
+theorem relF_drainStash {P : InMsg → Prop} (fuel : Nat) (s : Sess) (stash : List (Int × InMsg)) (last : SState)
+    (hP : PoolHyp N S P s.cfg) (hc : CfgHyp N S s.cfg) (hs : StashOK P s.st) (hst : ∀ p ∈ stash, P p.2) (hl : StashOK P last) :
+    RelF N S s (drainStash fuel s stash last).1 ∧ StashOK P (drainStash fuel s stash last).2.1
+      ∧ ∀ p ∈ (drainStash fuel s stash last).2.2, P p.2 := by
+  induction fuel generalizing s stash last with
+  | zero => exact ⟨RelF.refl s, hl, hst⟩
+  | succ n ih =>
+    unfold drainStash
+    split
+    · exact ⟨RelF.refl s, hl, hst⟩
+    · simp only []
+      rename_i nn m hf
+      have hm : P m := hst (nn, m) (List.mem_of_find?_eq_some hf)
+      have h1 := hout_inSessionFixMsgIn s m (hP m hm) hc hs
+      generalize inSessionFixMsgIn s m = r at h1
+      obtain ⟨s', nx⟩ := r
+      obtain ⟨h1r, h1s⟩ := h1
+      simp only [] at h1r h1s ⊢
+      have hst' : ∀ p ∈ stash.filter (fun x => x.1 != nn), P p.2 := fun p hp => hst p (List.mem_filter.1 hp).1
+      split
+      · exact ⟨h1r, h1s, hst'⟩
+      · have := ih s' _ nx (by rw [h1r.cfg]; exact hP) (by rw [h1r.cfg]; exact hc) (hs.of_st h1r.st) hst' h1s
+        exact ⟨h1r.trans this.1, this.2⟩
+
+theorem relF_sRR_eq {s : Sess} {b e : Int} {r : Sess × Int × Int} (hr : sendResendRequest s b e = r) : RelF N S s r.1 := by
+  rw [← hr]; exact relF_sendResendRequest s b e
+
+theorem drain_eq {P : InMsg → Prop} {fuel : Nat} {s : Sess} {stash : List (Int × InMsg)} {last : SState}
+    {r : Sess × SState × List (Int × InMsg)} (hr : drainStash fuel s stash last = r)
+    (hP : PoolHyp N S P s.cfg) (hc : CfgHyp N S s.cfg) (hs : StashOK P s.st) (hst : ∀ p ∈ stash, P p.2) (hl : StashOK P last) :
+    RelF N S s r.1 ∧ StashOK P r.2.1 ∧ ∀ p ∈ r.2.2, P p.2 := by
+  rw [← hr]; exact relF_drainStash fuel s stash last hP hc hs hst hl
+
+omit hp in
+theorem stashOK_resend {P : InMsg → Prop} (st : List (Int × InMsg)) (c f : Int) (h : ∀ p ∈ st, P p.2) : StashOK P (.resend st c f) := h
+
+theorem hout_resendFixMsgIn {P : InMsg → Prop} (s : Sess) (stash : List (Int × InMsg)) (cur fin : Int) (m : InMsg)
+    (h : MsgHyp N S P s.cfg m) (hP : PoolHyp N S P s.cfg) (hc : CfgHyp N S s.cfg) (hs : StashOK P s.st)
+    (hst : ∀ p ∈ stash, P p.2) : HOut N S P s (resendFixMsgIn s stash cur fin m) := by
+  unfold resendFixMsgIn
+  have h1 := hout_inSessionFixMsgIn s m h hc hs
+  generalize inSessionFixMsgIn s m = r at h1
+  obtain ⟨s', nx⟩ := r
+  obtain ⟨h1r, h1s⟩ := h1
+  simp only [] at h1r h1s ⊢
+  split
+  · exact ⟨h1r, h1s⟩
+  · have hP' : PoolHyp N S P s'.cfg := by rw [h1r.cfg]; exact hP
+    have hc' : CfgHyp N S s'.cfg := by rw [h1r.cfg]; exact hc
+    have hs' : StashOK P s'.st := hs.of_st h1r.st
+    repeat' split
+    all_goals (try dsimp only)
+    all_goals first
+      | exact ⟨h1r, stashOK_plain _ rfl⟩
+      | exact ⟨h1r, hst⟩
+      | exact ⟨h1r, h1s⟩
+      | exact ⟨h1r.trans (relF_sendResendRequest _ _ _), hst⟩
+      | exact ⟨h1r.trans (relF_sendResendRequest _ _ _), h1s⟩
+      | (have hd := drain_eq (N := N) (S := S) (by assumption) hP' hc' hs' (by split <;> first | exact h1s | exact hst) h1s
+         refine ⟨h1r.trans hd.1, ?_⟩
+         first
+           | exact hd.2.1
+           | exact hd.2.2)
+
+theorem relF_shutdownWithReason (s : Sess) (incr : Bool) : RelF N S s (shutdownWithReason s incr).1 := by
+  unfold shutdownWithReason
+  show RelF N S s (if incr = true then incrTarget (dropAndSend s (mkOut "5" [])) else dropAndSend s (mkOut "5" []))
+  rel_peel
+
+theorem relF_handleLogon_eq {P : InMsg → Prop} {s : Sess} {m : InMsg} {r : Sess × Option LogonErr} (hr : handleLogon s m = r)
+    (hk : kindOf m = "A") (h : MsgHyp N S P s.cfg m) (hc : CfgHyp N S s.cfg) : RelF N S s r.1 := by
+  rw [← hr]; exact relF_handleLogon s m hk h hc
+
+theorem hout_logonFixMsgIn {P : InMsg → Prop} (s : Sess) (m : InMsg) (h : MsgHyp N S P s.cfg m) (hc : CfgHyp N S s.cfg) :
+    HOut N S P s (logonFixMsgIn s m) := by
+  unfold logonFixMsgIn
+  split
+  · exact ⟨RelF.refl s, stashOK_plain _ rfl⟩
+  · rename_i hk
+    have hk' : kindOf m = "A" := by simpa using hk
+    repeat' split
+    all_goals (try dsimp only)
+    all_goals (
+      have hh := relF_handleLogon_eq (by assumption : handleLogon s m = _) hk' h hc
+      first
+        | exact ⟨hh, stashOK_plain _ rfl⟩
+        | exact ⟨hh.trans (relF_shutdownWithReason _ _), stashOK_plain _ rfl⟩
+        | exact ⟨hh.trans (relF_sRR_eq (by assumption)), stashOK_plain _ rfl⟩
+        | exact ⟨hh.trans (relF_sendResendRequest _ _ _), stashOK_plain _ rfl⟩)
+
+theorem hout_fixMsgInCore {P : InMsg → Prop} (s : Sess) (m : InMsg) (h : MsgHyp N S P s.cfg m) (hP : PoolHyp N S P s.cfg)
+    (hc : CfgHyp N S s.cfg) (hs : StashOK P s.st) : HOut N S P s (fixMsgInCore s m) := by
+  unfold fixMsgInCore
+  split
+  · exact ⟨RelF.refl s, stashOK_plain _ rfl⟩
+  · exact ⟨RelF.refl s, stashOK_plain _ rfl⟩
+  · exact hout_logonFixMsgIn s m h hc
+  · have h1 := hout_inSessionFixMsgIn s m h hc hs
+    generalize inSessionFixMsgIn s m = r at h1
+    obtain ⟨s', nx⟩ := r
+    dsimp only
+    split <;> exact ⟨h1.rel, stashOK_plain _ rfl⟩
+  · exact hout_inSessionFixMsgIn s m h hc hs
+  · exact hout_inSessionFixMsgIn s m h hc hs
+  · rename_i st c f heq
+    exact hout_resendFixMsgIn s _ _ _ m h hP hc hs (by have := hs; rw [heq] at this; exact this)
+  · rename_i st c f heq
+    exact hout_resendFixMsgIn s _ _ _ m h hP hc hs (by have := hs; rw [heq] at this; exact this)
+
+theorem relF_discMid (s : Sess) (hc : CfgHyp N S s.cfg) : RelF N S s (discMid s) := by
+  unfold discMid
+  simp only []
+  generalize hs1 : (if (s.st.loggedOn || match s.st with | SState.logout => true | SState.logon => s.cfg.initiator | x => false) = true
+      then s.emit Obs.onLogout else s) = s1
+  have h1 : RelF N S s s1 := by rw [← hs1]; rel_peel
+  have h2 : RelF N S s (if s1.cfg.resetOnDisconnect = true then dropAndReset s1 else s1) := by
+    split
+    · rename_i hr
+      rcases hc with hro | hno
+      · rel_peel
+      · rw [h1.cfg, hno.2.2] at hr; cases hr
+    · exact h1
+  generalize (if s1.cfg.resetOnDisconnect = true then dropAndReset s1 else s1) = s2 at h2
+  rel_peel
+
+/-! ### the setState / drainIn / incoming / checkSessionTime block -/
+
+/-- field updates that touch none of cfg / log / store -/
+theorem Rel.of_eq {s s' : Sess} (h1 : s'.cfg = s.cfg) (h2 : s'.log = s.log) (h3 : s'.store = s.store) : Rel N S s s' :=
+  ⟨h1, ⟨[], by simp [h2], by simp⟩, by rw [h3]; exact hp.sRefl _⟩
+
+/-- related to `s`, and the pool invariant holds -/
+def Good (N : Obs → Prop) (S : Store → Store → Prop) (P : InMsg → Prop) (s s' : Sess) : Prop := Rel N S s s' ∧ PoolInv P s'
+
+theorem Good.refl {P : InMsg → Prop} {s : Sess} (h : PoolInv P s) : Good N S P s s := ⟨Rel.refl s, h⟩
+
+theorem Good.trans {P : InMsg → Prop} {a b c : Sess} (h1 : Good N S P a b) (h2 : Good N S P b c) : Good N S P a c :=
+  ⟨h1.1.trans h2.1, h2.2⟩
+
+theorem Good.relF {P : InMsg → Prop} {a b c : Sess} (h1 : Good N S P a b) (h2 : RelF N S b c) : Good N S P a c :=
+  ⟨h1.1.trans h2.toRel, ⟨by rw [h2.inbox]; exact h1.2.1, by unfold StashOK; rw [h2.st]; exact h1.2.2⟩⟩
+
+theorem Good.setSt {P : InMsg → Prop} {a b : Sess} (h1 : Good N S P a b) (next : SState) (hn : StashOK P next) : Good N S P a (b.setSt next) :=
+  ⟨h1.1.trans (Rel.of_eq rfl rfl rfl), ⟨h1.2.1, hn⟩⟩
+
+theorem Good.closeInbox {P : InMsg → Prop} {a b : Sess} (h1 : Good N S P a b) : Good N S P a b.closeInbox :=
+  ⟨h1.1.trans (Rel.of_eq rfl rfl rfl), ⟨(by intro m hm; cases hm), h1.2.2⟩⟩
+
+theorem Good.setInbox {P : InMsg → Prop} {a b : Sess} (h1 : Good N S P a b) (ib : List InMsg) (hib : ∀ m ∈ ib, P m) : Good N S P a (b.setInbox ib) :=
+  ⟨h1.1.trans (Rel.of_eq rfl rfl rfl), ⟨hib, h1.2.2⟩⟩
+
+omit hp in
+theorem Good.cfg {P : InMsg → Prop} {a b : Sess} (h1 : Good N S P a b) : b.cfg = a.cfg := h1.1.cfg
+
+theorem rel_mutual {P : InMsg → Prop} (cfg : Cfg) (hP : PoolHyp N S P cfg) (hc : CfgHyp N S cfg) : ∀ fuel : Nat,
+    (∀ s next, s.cfg = cfg → PoolInv P s → StashOK P next → Good N S P s (setState fuel s next)) ∧
+    (∀ s, s.cfg = cfg → PoolInv P s → Good N S P s (drainIn fuel s)) ∧
+    (∀ s m, s.cfg = cfg → PoolInv P s → (∀ x, m = some x → P x) → Good N S P s (incoming fuel s m)) ∧
+    (∀ s a b, s.cfg = cfg → PoolInv P s → (b = true ∨ ResetOK N S) → Good N S P s (checkSessionTime fuel s a b)) := by
+  intro fuel
+  induction fuel with
+  | zero =>
+    refine ⟨?_, ?_, ?_, ?_⟩
+    · intro s next _ h hn; unfold setState; exact (Good.refl h).setSt next hn
+    · intro s _ h; unfold drainIn; exact Good.refl h
+    · intro s m _ h _; unfold incoming; exact Good.refl h
+    · intro s a b _ h _; unfold checkSessionTime; exact Good.refl h
+  | succ n ih =>
+    obtain ⟨ihS, ihD, ihI, ihC⟩ := ih
+    refine ⟨?_, ?_, ?_, ?_⟩
+    · intro s next hcfg h hn
+      unfold setState
+      simp only []
+      split
+      · generalize hx : (if s.st.connected = true then (drainIn n (discMid (drainIn n s))).closeInbox else s) = x
+        have hxG : Good N S P s x := by
+          rw [← hx]; split
+          · have g1 := ihD s hcfg h
+            have g2 := g1.relF (relF_discMid _ (by rw [g1.cfg, hcfg]; exact hc))
+            have g3 := g2.trans (ihD _ (by rw [g2.cfg, hcfg]) g2.2)
+            exact g3.closeInbox
+          · exact Good.refl h
+        have hx2 : Good N S P s (if x.pendingStop = true then x.setStopped else x) := by
+          split
+          · exact hxG.relF (RelF.of_eq rfl rfl rfl rfl rfl)
+          · exact hxG
+        exact hx2.setSt next hn
+      · exact (Good.refl h).setSt next hn
+    · intro s hcfg h
+      unfold drainIn
+      split
+      · exact Good.refl h
+      · split
+        · exact Good.refl h
+        · rename_i m rest heq
+          have hm : P m := h.1 m (by rw [heq]; exact List.mem_cons_self)
+          have hrest : ∀ x ∈ rest, P x := fun x hx => h.1 x (by rw [heq]; exact List.mem_cons_of_mem _ hx)
+          have g1 : Good N S P s (s.setInbox rest) := (Good.refl h).setInbox rest hrest
+          have g2 := g1.trans (ihI _ (some m) (by rw [g1.cfg, hcfg]) g1.2 (by intro x hx; cases hx; exact hm))
+          exact g2.trans (ihD _ (by rw [g2.cfg, hcfg]) g2.2)
+    · intro s m hcfg h hm
+      unfold incoming
+      simp only []
+      have g1 := ihC s true true hcfg h (Or.inl rfl)
+      generalize checkSessionTime n s true true = s1 at g1
+      split
+      · exact g1
+      · have hcfg1 : s1.cfg = cfg := by rw [g1.cfg, hcfg]
+        cases m with
+        | none => exact g1.relF (by rel_peel)
+        | some m =>
+          simp only []
+          have hmm : P m := hm m rfl
+          have hf := hout_fixMsgInCore s1 m (by rw [hcfg1]; exact hP m hmm) (by rw [hcfg1]; exact hP) (by rw [hcfg1]; exact hc) g1.2.2
+          generalize fixMsgInCore s1 m = r at hf
+          obtain ⟨s2, nx⟩ := r
+          obtain ⟨hfr, hfs⟩ := hf
+          have g2 := g1.relF hfr
+          have g3 := g2.trans (ihS s2 nx (by rw [g2.cfg, hcfg]) g2.2 hfs)
+          exact g3.relF (by rel_peel)
+    · intro s a b hcfg h hb
+      unfold checkSessionTime
+      simp only []
+      split
+      · have g1 : Good N S P s (if s.st.loggedOn = true then sendLogout s else s) := (Good.refl h).relF (by rel_peel)
+        exact g1.trans (ihS _ _ (by rw [g1.cfg, hcfg]) g1.2 (stashOK_plain _ rfl))
+      · generalize hx : (if (!s.st.sessionTime) = true then setState n s SState.latent else s) = x
+        have hxG : Good N S P s x := by
+          rw [← hx]; split
+          · exact ihS _ _ hcfg h (stashOK_plain _ rfl)
+          · exact Good.refl h
+        split
+        · rename_i hsame
+          have hro : ResetOK N S := by
+            rcases hb with hb | hb
+            · rw [hb] at hsame; simp at hsame
+            · exact hb
+          have g2 : Good N S P s (dropAndReset (if x.st.loggedOn = true then sendLogout x else x)) := hxG.relF (by rel_peel)
+          exact g2.trans (ihS _ _ (by rw [g2.cfg, hcfg]) g2.2 (stashOK_plain _ rfl))
+        · exact hxG
+
+/-! ### events -/
+
+theorem relF_inSessionTimeout (s : Sess) (e : TimerEv) : RelF N S s (inSessionTimeout s e).1 := by
+  unfold inSessionTimeout
+  rel_cases
+
+theorem relF_ist_eq {s : Sess} {e : TimerEv} {r : Sess × Bool} (hr : inSessionTimeout s e = r) : RelF N S s r.1 := by
+  rw [← hr]; exact relF_inSessionTimeout s e
+
+theorem hout_timeoutCore {P : InMsg → Prop} (s : Sess) (e : TimerEv) (hs : StashOK P s.st) : HOut N S P s (timeoutCore s e) := by
+  unfold timeoutCore
+  split
+  all_goals (try (rename_i heq; rw [heq] at hs))
+  all_goals (repeat' split)
+  all_goals (try dsimp only)
+  all_goals first
+    | exact ⟨RelF.refl s, stashOK_plain _ rfl⟩
+    | exact ⟨RelF.refl s, hs⟩
+    | exact ⟨relF_ist_eq (by assumption), stashOK_plain _ rfl⟩
+    | exact ⟨relF_ist_eq (by assumption), hs⟩
+    | exact ⟨relF_inSessionTimeout s e, stashOK_plain _ rfl⟩
+    | exact ⟨relF_inSessionTimeout s e, hs⟩
+
+omit hp in
+theorem shouldSendReset_false (s : Sess) (h : NoResetCfg s.cfg) : shouldSendReset s = false := by
+  unfold shouldSendReset
+  split
+  · rfl
+  · simp [h.1, h.2.1, h.2.2]
+
+theorem good_connect {P : InMsg → Prop} (s : Sess) (hc : CfgHyp N S s.cfg) (h : PoolInv P s) : Good N S P s (connect s).1 := by
+  unfold connect
+  split
+  · exact Good.refl h
+  · split
+    · dsimp only
+      split
+      · rename_i hr
+        rcases hc with hro | hno
+        · exact (Good.refl h).relF (by rel_peel)
+        · rw [hno.2.2] at hr; cases hr
+      · exact Good.refl h
+    · have g0 : Good N S P s s.openConn := ⟨Rel.of_eq rfl rfl rfl, ⟨(by intro m hm; cases hm), h.2⟩⟩
+      dsimp only
+      split
+      · exact g0.setSt _ (stashOK_plain _ rfl)
+      · dsimp only
+        refine Good.setSt ?_ _ (stashOK_plain _ rfl)
+        generalize hs1 : (if s.openConn.cfg.refreshOnLogon = true then s.openConn.emit Obs.refresh else s.openConn) = s1
+        have h1 : RelF N S s.openConn s1 := by rw [← hs1]; rel_peel
+        generalize hs2 : (if s1.cfg.resetOnLogon = true then s1.storeReset else s1) = s2
+        have h2 : RelF N S s.openConn s2 := by
+          rw [← hs2]; split
+          · rename_i hr
+            rcases hc with hro | hno
+            · rel_peel
+            · have : s1.cfg = s.cfg := h1.cfg
+              rw [this, hno.1] at hr; cases hr
+          · exact h1
+        refine g0.relF (h2.trans (relF_sendLogonInReplyTo _ _ ?_))
+        rcases hc with hro | hno
+        · exact Or.inl hro
+        · exact Or.inr (shouldSendReset_false _ (by have : s2.cfg = s.cfg := h2.cfg; rw [this]; exact hno))
+
+theorem hout_stopNext {P : InMsg → Prop} (s : Sess) (hs : StashOK P s.st) : HOut N S P s (stopNext s) := by
+  unfold stopNext
+  split
+  all_goals first
+    | exact ⟨relF_initiateLogout s, stashOK_plain _ rfl⟩
+    | exact ⟨RelF.refl s, stashOK_plain _ rfl⟩
+    | exact ⟨RelF.refl s, hs⟩
+
+/-- what the policy needs to know about an event -/
+def EvOK (N : Obs → Prop) (S : Store → Store → Prop) (P : InMsg → Prop) : Ev → Prop
+  | .incomingMsg m => ∀ x, m = some x → P x
+  | .arrive m => P m
+  | .send m => ResetOK N S ∨ resetLogon m = false
+  | .sessionTime _ sm => sm = true ∨ ResetOK N S
+  | _ => True
+
+theorem good_stepCore {P : InMsg → Prop} (s : Sess) (e : Ev) (hP : PoolHyp N S P s.cfg) (hc : CfgHyp N S s.cfg) (h : PoolInv P s)
+    (he : EvOK N S P e) : Good N S P s (stepCore s e).1 := by
+  obtain ⟨hS, hD, hI, hC⟩ := rel_mutual s.cfg hP hc (fuelOf s)
+  unfold stepCore
+  simp only []
+  cases e with
+  | connect => exact good_connect s hc h
+  | incomingMsg m => exact hI s m rfl h he
+  | arrive m =>
+    dsimp only; split
+    · exact (Good.refl h).setInbox _ (by
+        intro x hx
+        rcases List.mem_append.1 hx with hx | hx
+        · exact h.1 x hx
+        · simp at hx; subst hx; exact he)
+    · exact Good.refl h
+  | pop =>
+    dsimp only
+    split
+    · exact Good.refl h
+    · split
+      · exact Good.refl h
+      · rename_i m rest heq
+        have hm : P m := h.1 m (by rw [heq]; exact List.mem_cons_self)
+        have hrest : ∀ x ∈ rest, P x := fun x hx => h.1 x (by rw [heq]; exact List.mem_cons_of_mem _ hx)
+        have g1 : Good N S P s (s.setInbox rest) := (Good.refl h).setInbox rest hrest
+        exact g1.trans (hI _ (some m) g1.cfg g1.2 (by intro x hx; cases hx; exact hm))
+  | timeout ev =>
+    dsimp only
+    have g1 := hC s true true rfl h (Or.inl rfl)
+    have h2 := hout_timeoutCore (N := N) (S := S) _ ev g1.2.2
+    generalize timeoutCore (checkSessionTime (fuelOf s) s true true) ev = r at h2
+    obtain ⟨s2, nx⟩ := r
+    have g2 := g1.relF h2.rel
+    exact g2.trans (hS s2 nx g2.cfg g2.2 h2.stash)
+  | disconnected =>
+    dsimp only; split
+    · exact hS _ _ rfl h (stashOK_plain _ rfl)
+    · exact Good.refl h
+  | stop =>
+    dsimp only
+    have g1 : Good N S P s s.setPendingStop := (Good.refl h).relF (RelF.of_eq rfl rfl rfl rfl rfl)
+    have h2 := hout_stopNext (N := N) (S := S) s.setPendingStop g1.2.2
+    generalize stopNext s.setPendingStop = r at h2
+    obtain ⟨s2, nx⟩ := r
+    have g2 := g1.relF h2.rel
+    exact g2.trans (hS s2 nx g2.cfg g2.2 h2.stash)
+  | send m =>
+    dsimp only
+    have h1 := relF_prep (N := N) (S := S) s m he
+    generalize prep s m = r at h1
+    obtain ⟨o, s2⟩ := r
+    cases o with
+    | none => exact (Good.refl h).relF h1
+    | some m' => exact ((Good.refl h).relF h1).relF (RelF.of_eq rfl rfl rfl rfl rfl)
+  | flush =>
+    dsimp only
+    have g1 := hC s true true rfl h (Or.inl rfl)
+    split
+    · exact g1.relF (relF_sendQueued _)
+    · exact g1.relF (RelF.of_eq rfl rfl rfl rfl rfl)
+  | sessionTime r sm => exact hC s r sm rfl h he
 end
 end Qfx.Sess
